@@ -159,6 +159,8 @@ class World(object):
         fs = FileSystemStore(self.dir, allow_custom=True)
         for o in POP:
             fs.add(copy.deepcopy(o))
+        # ENVIRONMENT: parts of the store directory are symbolic links (a type directory, an object directory, a version file): the same store
+        self._symlinks()
         self.mem = MemoryStore([copy.deepcopy(o) for o in POP], allow_custom=True)
         self.stored = {}
         for name in ("mem", "fs"):
@@ -166,6 +168,28 @@ class World(object):
             self.stored[name] = [(key(o), view(o)) for o in objs]
         import atexit
         atexit.register(shutil.rmtree, self.dir, True)
+
+    def _symlinks(self):
+        side = self.dir + "-linked"
+        os.makedirs(side, exist_ok=True)
+        self.side = side
+        import atexit
+        atexit.register(shutil.rmtree, side, True)
+
+        def relink(path):
+            dst = os.path.join(side, os.path.basename(path) + "-" + str(len(os.listdir(side))))
+            shutil.move(path, dst)
+            os.symlink(dst, path)
+        try:
+            relink(os.path.join(self.dir, "identity"))                                            # a whole type directory
+            ind = os.path.join(self.dir, "indicator")
+            relink(os.path.join(ind, sorted(os.listdir(ind))[0]))                                  # one object directory
+            mal = os.path.join(self.dir, "malware", M1)
+            relink(os.path.join(mal, sorted(os.listdir(mal))[0]))                                  # one version file
+            ip = os.path.join(self.dir, "ipv4-addr")
+            relink(os.path.join(ip, sorted(os.listdir(ip))[0]))                                    # an unversioned object's file
+        except OSError:
+            pass          # a file system without symbolic links: the dimension is not available here
 
     def source(self, name):
         from stix2 import FileSystemSource, MemorySource
